@@ -186,3 +186,55 @@ func refNeg(curve string, a ref.Pt) ref.Pt {
 	}
 	return ref.SecpNeg(a)
 }
+
+// runVariants appends, for every `every`-th case of the given kinds, two copies that run the same session under another
+// legal environment: the sender's message objects handed to all recipients through Party.Update (an in-process transport
+// that runs several parties and does not serialise), and the deprecated process-wide default curve set to the curve the
+// session does NOT use (a process that serves both curves).
+func runVariants(cs []core.Case, every int, kinds ...string) []core.Case {
+	isKind := map[string]bool{}
+	for _, k := range kinds {
+		isKind[k] = true
+	}
+	out := cs
+	n := 0
+	for _, c := range cs {
+		if !isKind[c.Kind] {
+			continue
+		}
+		n++
+		if n%every != 1 && every > 1 {
+			continue
+		}
+		for _, v := range []string{"shared-objects", "other-default-curve"} {
+			cp := c
+			cp.ID, cp.Class = c.ID+"/"+v, c.Class+"/"+v
+			cp.P = core.P{}
+			for k, val := range c.P {
+				cp.P[k] = val
+			}
+			if v == "shared-objects" {
+				cp.P["objects"] = true
+			} else {
+				cp.P["defcurve"] = "other"
+			}
+			out = append(out, cp)
+		}
+	}
+	return out
+}
+
+// setDefaultCurve flips the process-wide default curve to the one the session does not use when the case asks for it;
+// the returned function restores it.
+func setDefaultCurve(p core.P, sessionCurve string) func() {
+	if p.Str("defcurve") != "other" {
+		return func() {}
+	}
+	prev := tss.EC()
+	if isEd(sessionCurve) {
+		tss.SetCurve(tss.S256())
+	} else {
+		tss.SetCurve(tss.Edwards())
+	}
+	return func() { tss.SetCurve(prev) }
+}
